@@ -798,21 +798,9 @@ fn task_exit() {
 fn clock_task() {
     let me = me();
     loop {
-        let (shutdown, has_timer) = with_core(|c| (c.shutdown, !c.timers.is_empty()));
-        if shutdown {
-            return;
-        }
-        if !has_timer {
-            ExecutionState::with(|s| s.current_mut().block(false));
-            sthread::switch();
-            continue;
-        }
-        // choosing to run the clock is itself the (possibly costly) decision
-        with_core(|c| {
-            c.ensure_task(me);
-            c.pending[me] = Op::Global;
-        });
-        sthread::switch();
+        // the clock has just been scheduled: with a timer pending, that is the decision to let
+        // time pass up to the earliest deadline (free when nobody else can run, a deviation
+        // otherwise - the clock is last in every canonical order)
         let fire = with_core(|c| {
             if c.shutdown || c.timers.is_empty() {
                 return None;
@@ -829,6 +817,21 @@ fn clock_task() {
         });
         if let Some(t) = fire {
             RT.unblock(t);
+        }
+        // wait to be scheduled again: runnable while a timer is pending, blocked otherwise
+        let (shutdown, has_timer) = with_core(|c| (c.shutdown, !c.timers.is_empty()));
+        if shutdown {
+            return;
+        }
+        if has_timer {
+            with_core(|c| {
+                c.ensure_task(me);
+                c.pending[me] = Op::Global;
+            });
+            sthread::switch();
+        } else {
+            ExecutionState::with(|s| s.current_mut().block(false));
+            sthread::switch();
         }
     }
 }
